@@ -97,6 +97,17 @@ M = {
   ('parse function equality by hash', 'sourcer/translator.py', "    def __hash__(self):\n        # The memo table", "    def __eq__(self, other):\n        return isinstance(other, _ParseFunction) and hash(self) == hash(other)\n\n    def __hash__(self):\n        # The memo table"),
   ('captured args as defaults (early binding)', 'sourcer/expressions/base.py', "            value = _ParseFunction(func, tuple(params[cutoff:]), ())\n            return out.var('arg', value)", "            value = _ParseFunction(func, tuple(params[cutoff:]), ())\n            return out.var('arg', value) if len(params) - cutoff < 2 else func"),
  ],
+ 'C04': [
+  ('byte never skips', 'sourcer/expressions/byte.py', "            if self.skip_ignored:\n                out += POS << utils.skip_ignored(end, flags)", "            if False:\n                out += POS << utils.skip_ignored(end, flags)"),
+  ('regex skips only when case-sensitive', 'sourcer/expressions/regex.py', "            if self.skip_ignored:", "            if self.skip_ignored and not self.ignore_case:"),
+  ('leading skip on first rule', 'sourcer/translator.py', "            first_rule = start_rule\n", "            first_rule = rules[0] if isinstance(rules[0], ex.Rule) and not rules[0].is_ignored else start_rule\n"),
+  ('start lookup case-sensitive', 'sourcer/translator.py', "        if start_rule is None and node.name and node.name.lower() == 'start':", "        if start_rule is None and node.name and node.name == 'start':"),
+  ('revert F04', 'sourcer/translator.py', "first_rule = start_rule.members[0] if start_rule.members else None", "first_rule = start_rule.fields[0] if start_rule.fields else None"),
+  ('no skip inside lookahead', 'sourcer/translator.py', "        for rule in rules:\n            if not rule.is_ignored:\n                visit(rules, _set_skip_ignored)\n", "        for rule in rules:\n            if not rule.is_ignored:\n                visit(rules, _set_skip_ignored)\n\n        def _unset_in_lookahead(e):\n            if isinstance(e, (ex.Expect, ex.ExpectNot)):\n                visit(e.expr, lambda x: setattr(x, 'skip_ignored', False) if hasattr(x, 'skip_ignored') else None)\n        visit(rules, _unset_in_lookahead)\n"),
+  ('skip after empty literal', 'sourcer/expressions/str.py', "        if not self.value:\n            out += STATUS << True\n            out += RESULT << self.value\n            return", "        if not self.value:\n            out += STATUS << True\n            out += RESULT << self.value\n            if self.skip_ignored:\n                out += POS << utils.skip_ignored(POS, flags)\n            return"),
+  ('class start: skip before second member', 'sourcer/translator.py', "first_rule = start_rule.members[0] if start_rule.members else None", "first_rule = start_rule.members[-1] if start_rule.members else None"),
+  ('only first ignore rule used', 'sourcer/translator.py', "        refs = [Ref(x.name) for x in ignored]\n", "        refs = [Ref(x.name) for x in ignored[:1]]\n"),
+ ],
  'C03': [
   ('sep drop pop', 'sourcer/expressions/sep.py', "                    with out.IF(staging):\n                        out += staging.pop()\n", "                    pass\n"),
   ('sep require_separator empty', 'sourcer/expressions/sep.py', "Code(f'not {staging} or {saw_separator}')", "Code(f'{saw_separator}')"),
